@@ -1,7 +1,7 @@
 //! C01 — UTXO answers are exactly the ledger state at the tip they name.
 use super::common::*;
 use crate::engine::{Outcome, Property, Tier};
-use crate::hist::{history_brief, history_strategy, History, World};
+use crate::hist::{history_brief, History, World};
 use crate::sut::{self, Filter};
 use proptest::prelude::*;
 
